@@ -40,7 +40,7 @@ impl UTXOView {
 //@ extract chain/src/txhashset/utxo_view.rs :: impl UTXOView::validate_block
 //@   sigrewrite `batch: &Batch<'_>,` => `batch: &Batch,`
 //@   rewrite `for output in block.outputs() {` => `for output in it: block.outputs().iter() {`
-//@   loop 1:
+//@   loop 1?:
 //@+    invariant
 //@+        forall|k: int| 0 <= k < it.index@ ==> sp_output_ok(*self, *batch, #[trigger] block.outs@[k]),
 //@   ensures:
@@ -49,7 +49,7 @@ impl UTXOView {
 //@ extract chain/src/txhashset/utxo_view.rs :: impl UTXOView::validate_tx
 //@   sigrewrite `batch: &Batch<'_>,` => `batch: &Batch,`
 //@   rewrite `for output in tx.outputs() {` => `for output in it: tx.outputs().iter() {`
-//@   loop 1:
+//@   loop 1?:
 //@+    invariant
 //@+        forall|k: int| 0 <= k < it.index@ ==> sp_output_ok(*self, *batch, #[trigger] tx.outs@[k]),
 //@   ensures:
